@@ -11,7 +11,7 @@ func evalIdent(ident *ast.Ident, env *object.Env) object.PanObject {
 	// NOTE: arg idents (`\1`, `\a`) refer only args of the current call
 	// (otherwise args of the enclosing func leak into a func called with fewer args)
 	if ident.IdentAttr == ast.ArgIdent || ident.IdentAttr == ast.KwargIdent {
-		val, ok = env.Store[object.GetSymHash(ident.Value)]
+		val, ok = env.GetInScope(object.GetSymHash(ident.Value))
 	}
 
 	if !ok {
